@@ -102,7 +102,8 @@ def run_job(args):
             "states": ex.nstates, "transitions": ex.ntrans, "results": len(ex.results), "keys": len(ex.visited),
             "subsumed": ex.nsubsumed, "budget": budget_hit,
             "obligations": {k: [v[0], v[1], v[2]] for k, v in m.obl.items()},
-            "violations": [dict(v, count=m.vcount.get((v["rule"], v["detail"]), 1)) for v in m.violations],
+            "violations": [dict(v, count=m.vcount.get((v["rule"], v["detail"]), 1), eof_paths=sorted(m.veof.get((v["rule"], v["detail"]), ())),
+                                options_on=sorted(m.vcfg.get((v["rule"], v["detail"]), ()))) for v in m.violations],
             "unanalysable": dedup_unanalysable(ex.unanalysable),
             "verdicts": verdict_histogram(ex.results),
             "instances": sorted(set(visited_instances(ex, prog))),
